@@ -12,8 +12,10 @@ cd /repo && git worktree remove --force $wt 2>/dev/null; git worktree add -q --d
 cd $wt
 # place demo files
 place() {
-  for f in $src/demo/*_test.go $src/demo/*.go; do
+  for f in $(find $src/demo -name '*.go' | sort -u); do
     [ -f "$f" ] || continue
+    rel=${f#$src/demo/}
+    if [ "$rel" != "$(basename $f)" ]; then mkdir -p $(dirname $rel); cp $f $rel; echo "placed $f -> $rel" >> $log; continue; fi
     dest=$(python3 - "$src" "$f" <<'PY'
 import json,sys,os,re
 src,f=sys.argv[1],sys.argv[2]
@@ -43,7 +45,11 @@ PY
   done
 }
 place
-demo=$(python3 -c "import json;print(json.load(open('$src/meta.json'))['demo_cmd'])")
+demo=$(python3 -c "
+import json,re
+d=json.load(open('$src/meta.json'))['demo_cmd']
+d=re.sub(r'cp\s+<[^>]*>\S*\s+\S+\s*(&&|;)\s*','',d)
+print(d)")
 echo "== demo without patch: $demo" >> $log
 ( eval "$demo" ) >> $log 2>&1; r0=$?
 echo "exit=$r0" >> $log
